@@ -69,8 +69,8 @@ Proof. intros c m ptop H1 H2. exact (bm_ok_append m c ptop H1 H2). Qed.
    environment extends an existing template, no render ever succeeds - whatever the fuel, so
    there is no truncated output reported as success - and with one unit of fuel per template the
    answer is the error, not "out of fuel". *)
-Theorem cycles_are_errors : forall (E : env) (main : name) (ctx : frame),
-  wf_env E = true -> closed_env E -> In main (map fst E) ->
+Theorem cycles_are_errors : forall (E : env) (main : name) (top : list item) (ctx : frame),
+  wf_env E = true -> closed_env E -> find_tmpl E main = Ok (Some top) ->
   (forall fuel o, render fixed_code None fuel E main ctx <> Ok o) /\
   (forall fuel, (length E < fuel)%nat -> render fixed_code None fuel E main ctx = Err E_InvalidOperation).
 Proof. exact extends_cycle_proof. Qed.
@@ -83,16 +83,29 @@ Proof. exact double_extends_proof. Qed.
 
 (* Extending a template that does not exist is TemplateNotFound. *)
 Theorem missing_parent_is_error : forall Q lim E f cur p rest st,
-  assoc p E = None -> memZ p (loaded st) = false ->
+  find_tmpl E p = Ok None -> memZ p (loaded st) = false ->
   icall Q lim E (S f) (TTemplate cur (IExtends (NLit p) :: rest)) st = Err E_TemplateNotFound.
 Proof. exact missing_parent_proof. Qed.
+
+(* A template that EXISTS but does not load (syntax error in its source, failing loader) is not
+   "missing": an include whose list reaches it after missing names fails with its load error -
+   no later choice is rendered, `ignore missing` does not apply - and so does extending it. *)
+Theorem unloadable_is_not_missing : forall Q lim E call cur miss n rest ign st c,
+  (forall m, In m miss -> find_tmpl E m = Ok None) -> find_tmpl E n = Err c ->
+  perform_include Q lim E call cur (map NLit miss ++ NLit n :: rest) ign st = Err c.
+Proof. exact unloadable_include_proof. Qed.
+
+Theorem unloadable_parent_is_error : forall Q lim E f cur p rest st c,
+  find_tmpl E p = Err c -> memZ p (loaded st) = false ->
+  icall Q lim E (S f) (TTemplate cur (IExtends (NLit p) :: rest)) st = Err c.
+Proof. exact unloadable_parent_proof. Qed.
 
 (* {% import lib as m %}: for a library of top-level text, set and macro statements, iterating m
    yields exactly the names the library defines at its top level (exports_of reads them off the
    library's text; exports_keys: a name is exported iff some top-level set / macro defines it). *)
 Theorem import_exports_exact : forall E main n m top ctx fuel,
-  wf_env E = true -> assoc main E = Some [IImport (NLit n) m; IKeys m] ->
-  assoc n E = Some top -> forallb is_simple top = true ->
+  wf_env E = true -> find_tmpl E main = Ok (Some [IImport (NLit n) m; IKeys m]) ->
+  find_tmpl E n = Ok (Some top) -> forallb is_simple top = true ->
   render fixed_code None (S (S fuel)) E main ctx = Ok (key_tokens (exports_of top)).
 Proof. exact import_exports_exact_proof. Qed.
 
@@ -105,11 +118,11 @@ Proof. exact exports_keys_proof. Qed.
    block 22 nested in t3's definition of 20 and overridden independently by t1; t3 includes t4,
    which has a chain of its own (extends t3's sibling t5) *)
 Definition E_demo : env :=
-  [ (1, [IExtends (NLit 2); IText 900; IBlock 20 false [IText 201; ISuper]; IBlock 22 false [IText 203; ISuper]]);
-    (2, [ICondExtends 30 (NLit 3); IBlock 20 false [ISuper; IText 202]]);
-    (3, [IText 210; IBlock 20 false [IText 211; IBlock 22 false [IText 212]]; IText 213; IInclude [NLit 9; NLit 4] false; ISelf 22]);
-    (4, [IExtends (NVar 31); IBlock 20 false [IText 220; ISuper]]);
-    (5, [IText 230; IBlock 20 false [IText 231]]) ].
+  [ (1, TGood [IExtends (NLit 2); IText 900; IBlock 20 false [IText 201; ISuper]; IBlock 22 false [IText 203; ISuper]]);
+    (2, TGood [ICondExtends 30 (NLit 3); IBlock 20 false [ISuper; IText 202]]);
+    (3, TGood [IText 210; IBlock 20 false [IText 211; IBlock 22 false [IText 212]]; IText 213; IInclude [NLit 9; NLit 4] false; ISelf 22]);
+    (4, TGood [IExtends (NVar 31); IBlock 20 false [IText 220; ISuper]]);
+    (5, TGood [IText 230; IBlock 20 false [IText 231]]) ].
 Definition ctx_demo : frame := [(30, VStr [1]); (31, VStr [5])].
 
 Example inherit_correct_witness :
@@ -121,50 +134,65 @@ Proof. vm_compute. repeat split. Qed.
 Example super_n_witness :
   (* three definitions, each calling super(): the third call finds no parent *)
   render fixed_code None 20
-    [ (1, [IExtends (NLit 2); IBlock 20 false [IText 201; ISuper]]);
-      (2, [IExtends (NLit 3); IBlock 20 false [IText 202; ISuper]]);
-      (3, [IBlock 20 false [IText 203]]) ] 1 [] = Ok [201; 202; 203] /\
+    [ (1, TGood [IExtends (NLit 2); IBlock 20 false [IText 201; ISuper]]);
+      (2, TGood [IExtends (NLit 3); IBlock 20 false [IText 202; ISuper]]);
+      (3, TGood [IBlock 20 false [IText 203]]) ] 1 [] = Ok [201; 202; 203] /\
   render fixed_code None 20
-    [ (1, [IExtends (NLit 2); IBlock 20 false [IText 201; ISuper]]);
-      (2, [IExtends (NLit 3); IBlock 20 false [IText 202; ISuper]]);
-      (3, [IBlock 20 false [IText 203; ISuper]]) ] 1 [] = Err E_EvalBlock.
+    [ (1, TGood [IExtends (NLit 2); IBlock 20 false [IText 201; ISuper]]);
+      (2, TGood [IExtends (NLit 3); IBlock 20 false [IText 202; ISuper]]);
+      (3, TGood [IBlock 20 false [IText 203; ISuper]]) ] 1 [] = Err E_EvalBlock.
 Proof. vm_compute. split; reflexivity. Qed.
 
 Example cycles_are_errors_witness :
-  let E := [ (1, [IExtends (NLit 2); IText 201]); (2, [IExtends (NLit 1)]) ] in
+  let E := [ (1, TGood [IExtends (NLit 2); IText 201]); (2, TGood [IExtends (NLit 1)]) ] in
   wf_env E = true /\ render fixed_code None 3 E 1 [] = Err E_InvalidOperation /\ render fixed_code None 2 E 1 [] = OutOfGas.
+Proof. vm_compute. repeat split. Qed.
+
+(* an empty definition in the middle of the chain is a definition: super() stops there *)
+Example empty_definition_witness :
+  render fixed_code None 20
+    [ (1, TGood [IExtends (NLit 2); IBlock 20 false [IText 201; ISuper; IText 202]]);
+      (2, TGood [IExtends (NLit 3); IBlock 20 false []]);
+      (3, TGood [IText 210; IBlock 20 false [IText 203]; IText 211]) ] 1 [] = Ok [210; 201; 202; 211].
+Proof. vm_compute. reflexivity. Qed.
+
+(* template 3 exists but has a syntax error (error kind 4): the include fails with it although a later
+   choice exists and although `ignore missing` is given *)
+Example unloadable_is_not_missing_witness :
+  let E := [ (1, TGood [IText 201; IInclude [NLit 9; NLit 3; NLit 2] true; IText 202]); (2, TGood [IText 203]); (3, TBad E_SyntaxError) ] in
+  wf_env E = true /\ render fixed_code None 20 E 1 [] = Err E_SyntaxError /\ srender 20 E 1 [] = Err E_SyntaxError.
 Proof. vm_compute. repeat split. Qed.
 
 (* An include cycle ends in an error through the recursion limit (concrete instance only: the
    general statement needs the depth accounting of C11). *)
 Example include_cycle_is_error_partial :
-  render fixed_code (Some 500) 200 [ (1, [IText 201; IInclude [NLit 2] false]); (2, [IInclude [NLit 1] false]) ] 1 []
+  render fixed_code (Some 500) 200 [ (1, TGood [IText 201; IInclude [NLit 2] false]); (2, TGood [IInclude [NLit 1] false]) ] 1 []
   = Err (100 + E_BadInclude).
 Proof. vm_compute. reflexivity. Qed.
 
 (* The code before the fix commits (Model.legacy_code) did NOT satisfy the specification: the four
    defects this property found, as the model saw them. *)
 Example refuted_before_fix_super_in_included_template :          (* perform_include kept current_block *)
-  render legacy_code None 20 [ (1, [IBlock 20 false [IInclude [NLit 2] false]]); (2, [ISuper]) ] 1 [] = Panic /\
-  srender 20 [ (1, [IBlock 20 false [IInclude [NLit 2] false]]); (2, [ISuper]) ] 1 [] = Err E_BadInclude.
+  render legacy_code None 20 [ (1, TGood [IBlock 20 false [IInclude [NLit 2] false]]); (2, TGood [ISuper]) ] 1 [] = Panic /\
+  srender 20 [ (1, TGood [IBlock 20 false [IInclude [NLit 2] false]]); (2, TGood [ISuper]) ] 1 [] = Err E_BadInclude.
 Proof. vm_compute. split; reflexivity. Qed.
 
 Example refuted_before_fix_include_shares_loaded_templates :     (* "cycle" although there is none *)
-  let E := [ (1, [IExtends (NLit 2); IBlock 20 false [IInclude [NLit 3] false]]);
-             (2, [IText 201; IBlock 20 false []]);
-             (3, [IExtends (NLit 2); IBlock 20 false [IText 202]]) ] in
+  let E := [ (1, TGood [IExtends (NLit 2); IBlock 20 false [IInclude [NLit 3] false]]);
+             (2, TGood [IText 201; IBlock 20 false []]);
+             (3, TGood [IExtends (NLit 2); IBlock 20 false [IText 202]]) ] in
   render legacy_code None 20 E 1 [] = Err E_BadInclude /\ srender 20 E 1 [] = Ok [201; 201; 202].
 Proof. vm_compute. split; reflexivity. Qed.
 
 Example refuted_before_fix_self_block_under_super :               (* call_block used the super() cursor *)
-  let E := [ (1, [IExtends (NLit 2); IBlock 20 false [IText 201; ISuper]]);
-             (2, [IBlock 20 false [IText 202; IIf 30 [ISet 30 0; ISelf 20]]]) ] in
+  let E := [ (1, TGood [IExtends (NLit 2); IBlock 20 false [IText 201; ISuper]]);
+             (2, TGood [IBlock 20 false [IText 202; IIf 30 [ISet 30 0; ISelf 20]]]) ] in
   render legacy_code None 20 E 1 [(30, VStr [1])] = Ok [201; 202; 202] /\
   srender 20 E 1 [(30, VStr [1])] = Ok [201; 202; 201; 202].
 Proof. vm_compute. split; reflexivity. Qed.
 
 Example refuted_before_fix_from_import_scope :                    (* from-import looked through all scopes *)
-  let E := [ (1, [ISet 31 201; IFrom (NLit 2) [(31, 32)]; IPrint 32]); (2, [IText 202]) ] in
+  let E := [ (1, TGood [ISet 31 201; IFrom (NLit 2) [(31, 32)]; IPrint 32]); (2, TGood [IText 202]) ] in
   render legacy_code None 20 E 1 [] = Ok [201] /\ srender 20 E 1 [] = Ok [].
 Proof. vm_compute. split; reflexivity. Qed.
 
@@ -176,5 +204,7 @@ Print Assumptions block_map_is_chain.
 Print Assumptions cycles_are_errors.
 Print Assumptions double_extends_is_error.
 Print Assumptions missing_parent_is_error.
+Print Assumptions unloadable_is_not_missing.
+Print Assumptions unloadable_parent_is_error.
 Print Assumptions import_exports_exact.
 Print Assumptions exports_keys.
